@@ -386,8 +386,37 @@ def _abscase(ctx) -> None:
                        f"abstract outcome {got}; the documented rule requires {want}", m.loc(ex[2] if ex[2] is not None else fn))
 
 
+def _local_env(ctx) -> None:
+    """LOCAL.env: the zone local() builds in when TZ is set - `_tz_from_env` run by the checker's interpreter on TZ values with
+    and without the POSIX ':' prefix (no file of that name): the zone constructed must be the name without the prefix."""
+    from ..rules import minieval
+    m = pmod("tz.local_timezone")
+    if not m.has_func("_tz_from_env"):
+        ctx.unverified("LOCAL.env", "_tz_from_env", "function not found", m.rel)
+        return
+    fn = m.func("_tz_from_env")
+    bad = []
+    try:
+        for tzenv, want in ((":Europe/Paris", "Europe/Paris"), ("Europe/Paris", "Europe/Paris"), (":UTC", "UTC"), ("America/Argentina/Buenos_Aires", "America/Argentina/Buenos_Aires")):
+            made = []
+            glob = {"os": minieval.Stub(path=minieval.Stub(isfile=lambda p_: False, exists=lambda p_: False)),
+                    "Timezone": minieval.ClassStub(_new=lambda name, *a, **k: (made.append(name), minieval.Stub(_zone=name))[1], _isa=lambda v: False),
+                    "ValueError": ValueError}
+            funcs = {st.name: st for st in m.top() if isinstance(st, ast.FunctionDef)}
+            got = minieval.call(fn, [tzenv], {}, {**funcs, "$globals": glob})
+            if getattr(got, "_zone", None) != want:
+                bad.append(f"TZ={tzenv!r} builds in zone {getattr(got, '_zone', got)!r} (expected {want!r})")
+    except (core.Unsupported, ValueError, TypeError, AttributeError, KeyError, IndexError) as e:
+        ctx.unverified("LOCAL.env", "_tz_from_env", f"outside the checker's interpreter: {type(e).__name__}: {e}", m.loc(fn))
+        return
+    ctx.ob("LOCAL.env", "_tz_from_env", not bad, "; ".join(bad) if bad else "the zone named by TZ, a leading ':' stripped", m.loc(fn))
+
+
 def run(ctx) -> None:
     ctx.explanation = EXPLANATION
+    ctx.step(_local_env, ctx)
+    from . import C07
+    ctx.step(C07._fraction, ctx, None)        # parse(tz=) returns exactly that wall time: the sub-second digits of the Python parsers
     bad = core.check_bases()
     if bad:
         raise core.AnchorMissing("class hierarchy changed: " + "; ".join(bad))
